@@ -221,6 +221,23 @@ def analyse_cell(args):
         from werkzeug.test import EnvironBuilder
         from werkzeug.wrappers import Request
         path = ''.join('/v_%s' % n for n in cfgc['url']) or '/'
+        # the same application embedded under a prefix in a parent without resources/middlewares must run the same chain
+        from clastic import Application as _App
+        try:
+            parent = _App([('/emb', app)])
+        except Exception as e:     # noqa
+            parent = None
+            out['violations'].append(dict(kind='trace', beh={}, real=['embedding failed: %r' % (e,)], spec=[], status=None))
+        if parent is not None:
+            BEH.clear()
+            del REC[:]
+            presp = parent.dispatch(Request(EnvironBuilder(path='/emb' + path).get_environ()))
+            real_events = ['%s:%s' % (e[0], e[1]) for e in REC]
+            sub0 = [(f.beh, z3.IntVal(0)) for f in finfos]
+            spec_events = seq_events(dom, z3.simplify(z3.substitute(spec_tr, *sub0)))
+            out['validated'] += 1
+            if real_events != spec_events:
+                out['violations'].append(dict(kind='trace', beh={'embedded': True}, real=real_events, spec=spec_events, status=presp.status_code))
         for vec in vectors:
             BEH.clear()
             BEH.update(vec)
@@ -393,5 +410,8 @@ def collect(prop, ctx, wanted, title):
 
 if __name__ == '__main__':
     n, seed, maxmw, nvalid = [int(x) for x in sys.argv[1:5]]
-    outs = run_cells_local(n, seed, maxmw, nvalid)
+    try:
+        outs = run_cells_local(n, seed, maxmw, nvalid)
+    except Exception as e:      # e.g. an unsupported construct met while drawing cells from the E2 constraint system
+        outs = [dict(cfg={}, queries=[], unsupported='while drawing cells: %r' % (e,), error=None, violations=[], validated=0, t=0, nfuncs=0)]
     sys.stdout.write(json.dumps(outs, default=str) + '\n')
